@@ -21,6 +21,7 @@ SPECS = {
     'f_obj_in': [('a', 'int'), ('b', 'int')], 'f_setattr': [('a', 'int')], 'f_ifexp': [('a', 'int'), ('s', 'str')],
     'f_unpack': [('a', 'int'), ('b', 'int')], 'f_none_attr': [('flag', 'bool')], 'f_assert': [('a', 'int')],
     'f_str_methods': [('s', 'str')], 'f_nested': [('a', 'int'), ('b', 'int')], 'f_walrus': [('a', 'int')], 'f_bool_int': [('a', 'int')], 'f_bits': [('a', 'int')],
+    'f_lazy_iterables': [('s', 'str'), ('a', 'int')],
 }
 
 
